@@ -23,6 +23,7 @@ next read of S, so offering each event only at the read points of the
 structure it changes loses no behaviour (see DESIGN.md 3.2).
 '''
 
+import os
 import sys
 import copy
 import queue
@@ -313,6 +314,8 @@ class World(object):
         self.c_child_a  = bool(self.to_cancel)   # child list still to be set
         self.c_child_b  = bool(self.to_cancel)   # child queue put pending
         self.c_deferred = None
+        self.c_pending  = list()                 # captured, not yet applied
+        self._c_order   = None
         self.envs       = list(scenario.get('envs') or [])
         self.max_completes = scenario.get('max_completes')
         self.n_completes   = 0
@@ -342,6 +345,11 @@ class World(object):
             import traceback
             tb = traceback.extract_tb(e.__traceback__)
             site = [f.name for f in tb if '/radical/pilot/' in f.filename]
+            if tb and '/radical/' not in tb[-1].filename and \
+               os.path.dirname(os.path.abspath(__file__)) in tb[-1].filename:
+                # raised by the harness' own code, not by the scheduler
+                raise HarnessError('harness code raised %r at %s:%s'
+                                   % (e, tb[-1].filename, tb[-1].lineno))
             self.stopped = 'crash'
             self.observe()
             self.oracle.loop_crashed(self, e, site[-1] if site else '?')
@@ -371,6 +379,64 @@ class World(object):
 
     # --------------------------------------------------------------------------
     #
+    def _capture_control_cb(self, probe=False):
+        '''
+        run the child's real _control_cb for the cancel request with its
+        effects on `_cancel_list` and on the scheduler queue recorded instead
+        of applied; returns [('list', uids) | ('put', item), ...] in order
+        '''
+        c    = self.child
+        log  = list()
+
+        class RecList(list):
+            def __iadd__(self_, other):
+                log.append(('list', list(other)))
+                return self_
+            def extend(self_, other):
+                log.append(('list', list(other)))
+            def append(self_, x):
+                log.append(('list', [x]))
+
+        real_list = c._cancel_list
+        c._cancel_list = RecList(real_list)
+        self.q_sched.put = lambda x: log.append(('put', x))
+        try:
+            c._control_cb(rpc.CONTROL_PUBSUB, self._cmsg())
+        finally:
+            del self.q_sched.put
+            if type(c._cancel_list) is RecList:
+                real_list[:] = list(c._cancel_list)
+            else:
+                # the handler rebound the attribute (x = x + uids)
+                new = list(c._cancel_list)
+                log.append(('list', new[len(real_list):]))
+                real_list[:] = new[:len(real_list)]
+            c._cancel_list = real_list
+        return log
+
+    def _apply_half(self, half):
+        kind, val = half
+        if kind == 'list':
+            self.child._cancel_list += val
+        else:
+            self.q_sched.put(val)
+
+    def c_order_probe(self):
+        '''which effect does the real handler produce first?'''
+        if self._c_order is None:
+            snap = (list(self.child._cancel_list), )
+            n_pub, n_q = len(self.net.pub_log), len(self.net.q_log)
+            was, self.injecting = self.injecting, True
+            try:
+                log = self._capture_control_cb()
+            finally:
+                self.injecting = was
+            self.child._cancel_list[:] = snap[0]
+            del self.net.pub_log[n_pub:]
+            del self.net.q_log[n_q:]
+            self._c_order = [k for k, _ in log] or ['list']
+        return self._c_order
+
     def enabled(self, kind):
         ev = list()
         if kind == 'sched':
@@ -382,6 +448,10 @@ class World(object):
                 ev.append(('cancel_parent',))
             if self.c_child_b:
                 ev.append(('cancel_child',))
+            if self.c_child_a and self.c_order_probe()[0] == 'put':
+                # the handler talks to the loop before it registers the
+                # request: that half matters where the loop reads its queue
+                ev.append(('cancel_child_list',))
         elif kind == 'unsched':
             if self.scn.get('mass'):
                 # all running tasks end together: one event, many messages
@@ -394,6 +464,10 @@ class World(object):
         elif kind == 'cancel':
             if self.c_child_a:
                 ev.append(('cancel_child_list',))
+            elif self.c_child_b and self.c_pending and \
+                 self.c_pending[0][0] == 'list':
+                # ... and the registration where the loop reads the list
+                ev.append(('cancel_child',))
         elif kind == 'top':
             for name in self.envs:
                 ev.append(('named_env', name))
@@ -454,17 +528,16 @@ class World(object):
                 self.parent._control_cb(rpc.CONTROL_PUBSUB, self._cmsg())
 
             elif kind == 'cancel_child_list':
-                # first half of the child's _control_cb: the queue put of
-                # control_cb is deferred
+                # first half of the child's _control_cb: its two effects on
+                # what the loop reads (registration in _cancel_list, queue
+                # put of control_cb) are captured in the order the real code
+                # produces them; the first takes effect now, the second with
+                # the `cancel_child` event
                 self.c_child_a = False
                 self.oracle.cancel_issued(self, self.to_cancel)
-                real_put = self.q_sched.put
-                self.q_sched.put = lambda x: setattr(self, 'c_deferred', x)
-                try:
-                    self.child._control_cb(rpc.CONTROL_PUBSUB, self._cmsg())
-                finally:
-                    del self.q_sched.put
-                assert self.c_deferred is not None
+                self.c_pending = self._capture_control_cb()
+                if self.c_pending:
+                    self._apply_half(self.c_pending.pop(0))
 
             elif kind == 'cancel_child':
                 self.c_child_b = False
@@ -473,7 +546,8 @@ class World(object):
                     self.c_child_a = False
                     self.child._control_cb(rpc.CONTROL_PUBSUB, self._cmsg())
                 else:
-                    self.q_sched.put(self.c_deferred)
+                    while self.c_pending:
+                        self._apply_half(self.c_pending.pop(0))
 
             elif kind == 'named_env':
                 self.envs.remove(ev[1])
@@ -516,6 +590,7 @@ class World(object):
     #
     def remaining(self):
         return (self.next_bulk, self.c_parent, self.c_child_a, self.c_child_b,
+                tuple(k for k, _ in self.c_pending),
                 tuple(self.envs), self.n_completes
                 if self.max_completes is not None else -1)
 
